@@ -636,6 +636,24 @@ theorem shortPick_some {cids : List Bytes} {payload c : Bytes} (h : shortPick ci
   have h2 := List.mem_of_find?_eq_some h
   rw [cidPrefixOf_iff] at h1
   exact ⟨mem_sortCids.mp h2, h1⟩
+
+theorem shortPick_longest {cids : List Bytes} {payload c : Bytes} (h : shortPick cids payload = some c) :
+    ∀ d ∈ cids, d ≠ [] → d <+: payload.drop 1 → d.length ≤ c.length := by
+  intro d hd hne hp
+  obtain ⟨as, bs, hsplit, hbefore⟩ := (List.find?_eq_some_iff_append.mp h).2
+  have hsorted := sortCids_sorted cids
+  rw [hsplit] at hsorted
+  have hdm : d ∈ as ++ c :: bs := by rw [← hsplit]; exact mem_sortCids.mpr hd
+  rcases List.mem_append.mp hdm with hda | hdc
+  · have := hbefore d hda
+    rw [Bool.not_eq_true', ← Bool.not_eq_true, cidPrefixOf_iff] at this
+    exact absurd ⟨hne, hp⟩ this
+  · rcases List.mem_cons.mp hdc with rfl | hdb
+    · exact Nat.le_refl _
+    · have := (List.pairwise_cons.mp (List.pairwise_append.mp hsorted).2.1).1 d hdb
+      simp only [cidLe, Bool.or_eq_true, Bool.and_eq_true, decide_eq_true_eq, beq_iff_eq] at this
+      omega
+
 end Order
 
 section QuicApart
